@@ -122,6 +122,7 @@ def run(ctx, monitors):
         jobs += [
             {"cfg": "MC_SyncClient_follow_live.cfg", "expect_ok": False},
             {"cfg": "MC_SyncClient_repair_live.cfg", "expect_ok": False},
+            {"cfg": "MC_SyncClient_repair_abort.cfg", "expect_ok": False},
             {"cfg": "MC_SyncClient_run_big.cfg", "timeout": 1500, "workers": 8},
             {"cfg": "MC_SyncClient_race_big.cfg", "timeout": 1500, "workers": 8},
             {"cfg": "MC_SyncClient_follow_chained_big.cfg", "timeout": 900},
